@@ -1394,7 +1394,9 @@ class Executor(object):
     def plain_loop(lc):
         """a loop whose contract is only an invariant (no ghost accumulators, no per-iteration event description): the function's
         other clauses do not mention it, so it can also be executed by unrolling"""
-        return not (lc.get("ghost") or lc.get("body_events") or lc.get("local_trace"))
+        # (`unrollable`: the contract says its function's clauses are written over the raw trace, so they mean the same when the
+        # loop is unrolled instead of summarised)
+        return bool(lc.get("unrollable")) or not (lc.get("ghost") or lc.get("body_events") or lc.get("local_trace"))
 
     def while_unrolled(self, st, s, lc, depth):
         if depth > self.unroll_depth:
